@@ -118,3 +118,7 @@ class BeatTrack2(ugn.MultiOutUGen):
         return cls._multi_new(
             'control', busindex, numfeatures, windowsize,
             paccuracy, lock, wscheme)
+
+    def _init_ugen(self, *inputs):  # override
+        self._inputs = inputs
+        return self._init_outputs(6, self.rate)
